@@ -458,6 +458,8 @@ pub fn run(args: &Args) {
     w.flush();
     sum.histogram.insert("corpus_candidates".into(), n_corpus as i128);
     sum.histogram.insert("corpus_accepted".into(), accepted_corpus as i128);
+    // statements that fail as a whole under ON ERROR RESUME NEXT leave every stack as it was
+    crate::c05::error_skip(&mut rng, if args.thorough() { 1000 } else { 200 }, args.thorough(), &mut sum, &mut evaluations);
     sum.write(
         &args.out,
         evaluations,
